@@ -1066,7 +1066,9 @@ func c19Conn(p *load.Program, r *oblig.Report) {
 					ret, isRet := i.(*ssa.Return)
 					return isRet && len(ret.Results) == 2 && strings.Contains(clean(an.Shape(an.RetVal(ret, 1))), "TopicErrorCode")
 				}}
-			if q.ReachableFrom(an.Point{B: b.Succs[e], Idx: -1}) != nil {
+			_ = e
+			// (the topic test may come before or after the code test: the search starts at the function entry)
+			if q.ReachableFrom(an.EntryPoint(f)) != nil {
 				isolated = false
 			}
 		}
